@@ -14,14 +14,24 @@ fn jobs() -> Vec<(Op, Vec<Vec<f64>>)> {
     let un = |g: &[f64]| g.iter().map(|x| vec![*x]).collect::<Vec<_>>();
     let mut v: Vec<(Op, Vec<Vec<f64>>)> = Vec::new();
     for op in [Op::Exp, Op::Exp2, Op::ExpM1, Op::Sin, Op::Cos, Op::SinCosS, Op::SinCosC, Op::Tan, Op::Atan, Op::Sinh, Op::Cosh, Op::Tanh, Op::Asinh, Op::Cbrt, Op::Recip, Op::Abs, Op::Signum] {
-        v.push((op, un(REAL)));
+        let mut g = un(REAL);
+        if !matches!(op, Op::Cbrt | Op::Recip | Op::Abs | Op::Signum) {
+            // exactly zero: many closed-form coefficients vanish there (zero real part, non-zero
+            // inner derivative parts on nested types)
+            g.push(vec![0.0]);
+        }
+        v.push((op, g));
     }
     for op in [Op::Sqrt, Op::Ln, Op::Log(0.5), Op::Log(2.5), Op::Log(10.0), Op::Log2, Op::Log10] {
         v.push((op, un(POS)));
     }
-    v.push((Op::Ln1p, un(GTM1)));
+    let mut g = un(GTM1);
+    g.push(vec![0.0]);
+    v.push((Op::Ln1p, g));
     for op in [Op::Asin, Op::Acos, Op::Atanh] {
-        v.push((op, un(UNIT)));
+        let mut g = un(UNIT);
+        g.push(vec![0.0]);
+        v.push((op, g));
     }
     v.push((Op::Acosh, un(GT1)));
     // atan2(y, x): two points per quadrant
